@@ -305,6 +305,7 @@ class Sym:
         return args_then(0, env, [])
 
     def apply(self, f, args, env, k):
+        f = self.tr.wrappers.get(f, f)          # value-transparent wrapper: the call is the wrapped call
         if f in IGNORED:
             return k(env, ("int", 0))
         if f == "malloc":
@@ -735,6 +736,7 @@ class Translator:
     def __init__(self, run):
         self.run = run
         self.helpers = {}
+        self.wrappers = {}
         self.asts = {}
 
     def ast(self, rel):
@@ -744,6 +746,56 @@ class Translator:
 
 
 HELPER_FILES = ["src/util/pwd.c", "src/datasource/tty__common.c"]
+WRAPPER_FILES = ["src/tsrm.c"]
+
+
+def value_transparent_wrappers(tr):
+    """functions of the tree whose body is exactly:  T r;  pthread_mutex_lock(&M);  r = F(p1, ..., pn);  pthread_mutex_unlock(&M);  return r;
+    with p1..pn the function's own parameters in order: the call returns what F returns and stores what F stores (the lock is C09/C10's
+    business).  name -> F.  Read from the AST, nothing is recognised by name."""
+    out = {}
+    for rel in WRAPPER_FILES:
+        if not os.path.exists(os.path.join(tr.run.tree, rel)):
+            continue
+        for name, node in tr.ast(rel).items():
+            params = [c["name"] for c in node.get("inner", []) if c.get("kind") == "ParmVarDecl" and "name" in c]
+            body = [c for c in node.get("inner", []) if c.get("kind") == "CompoundStmt"][0].get("inner", [])
+            if len(body) != 5 or not params:
+                continue
+            d, lk, asg, ul, ret = body
+
+            def callee(n):
+                n = strip(n)
+                if n.get("kind") != "CallExpr":
+                    return None, []
+                c = strip(n["inner"][0])
+                return c.get("referencedDecl", {}).get("name"), n["inner"][1:]
+
+            def ref(n):
+                n = strip(n)
+                while n.get("kind") in ("ImplicitCastExpr", "ParenExpr") and n.get("inner"):
+                    n = strip(n["inner"][0])
+                return n.get("referencedDecl", {}).get("name") if n.get("kind") == "DeclRefExpr" else None
+
+            def mutex(args):
+                a = strip(args[0]) if len(args) == 1 else {}
+                return ref(a["inner"][0]) if a.get("kind") == "UnaryOperator" and a.get("opcode") == "&" else None
+            if d.get("kind") != "DeclStmt" or len(d.get("inner", [])) != 1 or d["inner"][0].get("kind") != "VarDecl" or d["inner"][0].get("inner"):
+                continue
+            r = d["inner"][0]["name"]
+            f1, a1 = callee(lk)
+            f2, a2 = callee(ul)
+            if f1 != "pthread_mutex_lock" or f2 != "pthread_mutex_unlock" or mutex(a1) is None or mutex(a1) != mutex(a2):
+                continue
+            if asg.get("kind") != "BinaryOperator" or asg.get("opcode") != "=" or ref(asg["inner"][0]) != r:
+                continue
+            f, args = callee(asg["inner"][1])
+            if f is None or f in tr.asts.get(rel, {}) or [ref(a) for a in args] != params:
+                continue
+            if ret.get("kind") != "ReturnStmt" or not ret.get("inner") or ref(ret["inner"][0]) != r:
+                continue
+            out[name] = f
+    return out
 
 
 def tr_ds(run):
@@ -752,6 +804,7 @@ def tr_ds(run):
         if os.path.exists(os.path.join(run.tree, rel)):
             for name, node in tr.ast(rel).items():
                 tr.helpers[name] = node
+    tr.wrappers = value_transparent_wrappers(tr)
     reg = registry(run)
     # which file defines which data source function
     defs = {}
@@ -776,6 +829,7 @@ def tr_ds(run):
         s = Sym(tr, sym)
         tree = s.run(node)
         calls, fmts = ast_calls_and_formats(node)
+        calls = calls + [tr.wrappers[c] for c in calls if c in tr.wrappers]      # a wrapper stands for the call it wraps
         # regex cross-check on the text of the same function
         txt = strip_comments(run.src(rel))
         body = func_body(txt, sym) or ""
@@ -788,7 +842,7 @@ def tr_ds(run):
             tree = ("other", "AST and regex readings disagree")
         ext = []
         for c in calls:
-            if c not in ext and c not in ("snprintf", "free", "malloc", "__errno_location"):
+            if c not in ext and c not in ("snprintf", "free", "malloc", "__errno_location") and c not in tr.wrappers:
                 ext.append(c)
         # helpers contribute their own external calls
         for c in list(ext):
@@ -823,7 +877,7 @@ def tr_ds(run):
     out.append("].\n")
     out.append("Definition gen : ds_gen := {| g_consts := consts; g_table := table |}.\n")
     run.write_gen("Gen_Ds.v", "\n".join(out))
-    js = {"entries": info, "consts": {k: (v.hex() if isinstance(v, bytes) else v) for k, v in consts.items()}, "registry": reg}
+    js = {"entries": info, "value_transparent_wrappers": tr.wrappers, "consts": {k: (v.hex() if isinstance(v, bytes) else v) for k, v in consts.items()}, "registry": reg}
     json.dump(js, open(os.path.join(run.scratch, "consts_dstruth.json"), "w"), indent=1)
     # tsv for the model driver
     tsv = []
